@@ -158,12 +158,27 @@ partial def paramOfSexp : Sexp → Option Param
     pure (.mk t o ss)
   | _ => none
 
+def matchOfSexp : Sexp → Option MatchRec
+  | .list (.atom "m" :: .atom a :: .atom b :: .atom t :: gs) => do
+    let a ← a.toNat?
+    let b ← b.toNat?
+    let t ← strOfAtom t
+    let gs ← gs.mapM (fun g => match g with | .atom x => strOfAtom x | _ => none)
+    pure { text := t, start := a, stop := b, groups := gs }
+  | _ => none
+
+/-- `(t <subject> <match>…)`: the engine's matches on one subject string -/
+def rxEntryOfSexp : Sexp → Option (String × List MatchRec)
+  | .list (.atom "t" :: .atom s :: ms) => do pure (← strOfAtom s, ← ms.mapM matchOfSexp)
+  | _ => none
+
 partial def nodeOfSexp : Sexp → Option (Node Float)
   | .list [.atom "str", .atom s] => (strOfAtom s).map Node.str
   | .list [.atom "num", .atom n] => (numOfAtom n).map Node.num
   | .list [.atom "bool", .atom b] => some (.bool (b == "t"))
   | .list [.atom "null"] => some .null
-  | .list [.atom "regex", .atom s] => (strOfAtom s).map Node.regex
+  | .list (.atom "regex" :: .atom s :: tbl) => do
+    pure (.regex (← strOfAtom s) (← tbl.mapM rxEntryOfSexp))
   | .list [.atom "var", .atom s] => (strOfAtom s).map Node.var
   | .list [.atom "name", .atom s] => (strOfAtom s).map Node.name
   | .list (.atom "path" :: .atom k :: steps) => do
@@ -261,7 +276,7 @@ partial def nodeToText : Node Float → String
   | .num x => "(num " ++ numAtom x ++ ")"
   | .bool b => if b then "(bool t)" else "(bool f)"
   | .null => "(null)"
-  | .regex p => "(regex s" ++ stringToHex p ++ ")"
+  | .regex p _ => "(regex s" ++ stringToHex p ++ ")"
   | .var n => "(var s" ++ stringToHex n ++ ")"
   | .name v => "(name s" ++ stringToHex v ++ ")"
   | .path steps keep => "(path " ++ (if keep then "K" else "k") ++ many steps ++ ")"
